@@ -369,6 +369,13 @@ def run_history(spec, hseed, steps, driver, props, mode="prim"):
                         viol.append({"property": "C05", "what": f"rewrote stored values {got_w}, the out-of-date stored values were {want_w}", "step": desc})
                     if len(set(reads)) != len(reads):
                         viol.append({"property": "C05", "what": f"a store was read more than once in one run: {reads}", "step": desc})
+                    consumed = set(out or [])
+                    for c in set(calls):
+                        consumed |= set(spec["nodes"][c]["args"])
+                    stray = sorted(set(reads) - consumed)
+                    if stray:
+                        viol.append({"property": "C05", "what": f"stores {stray} were read although no call executed in this run and no requested "
+                                     f"output consumes them (calls {sorted(set(calls))}, output {out})", "step": desc})
                     for i in set(calls):
                         if b.kinds[i] == "stored" and i not in ood_before:
                             viol.append({"property": "C05", "what": f"up-to-date stored value {i} was recomputed", "step": desc})
